@@ -401,6 +401,16 @@ class SymH:
     def snapshot(self, v):
         return Mo.snapshot(self.I, v)
 
+    def exec_text(self, text, /, **env):
+        """execute python source text that the code under verification GENERATED (mystic.symbolic passes such strings
+        to exec / eval): same front end, same interpreter; names resolve in `env`, then builtins"""
+        tree = ast.parse(text.strip())
+        self.I.exec_block(tree.body, Env(dict(env), None, None))
+
+    def eval_text(self, text, /, **env):
+        tree = ast.parse(text.strip(), mode='eval').body
+        return self.I.eval(tree, Env(dict(env), None, None))
+
     def is_sym(self):
         return True
 
@@ -991,6 +1001,16 @@ class NativeH:
     def snapshot(self, v):
         import copy
         return copy.deepcopy(v)
+
+    def exec_text(self, text, /, **env):
+        ns = dict(env)
+        ns['__builtins__'] = __builtins__
+        exec(text.strip(), ns)
+
+    def eval_text(self, text, /, **env):
+        ns = dict(env)
+        ns['__builtins__'] = __builtins__
+        return eval(text.strip(), ns)
 
     def is_sym(self):
         return False
